@@ -426,4 +426,91 @@ theorem closestNsec_covers {z : Zone} {name : LName} {r : RRset}
       · simp [h1]
       · simp [canonLt_asymm h2]
 
+/-! ### the NXDOMAIN proof denies the wildcard at the closest encloser (code as repaired by
+/repo f7c9c53) -/
+
+/-- the `while` loop of `nsec_records` finds the closest encloser of RFC 4592 / RFC 4035: the
+wildcard it forms is `*.<closest encloser>` of the specification -/
+theorem nextCloser_eq_closestEncloser {z : Zone} {o : LName} (wf : WF z o) :
+    ∀ (enc : LName), o <:+ enc → ∀ x : Bytes,
+      intoWildcard (nextCloser z o (x :: enc) enc) = star :: closestEncloser z (x :: enc) := by
+  obtain ⟨s, hs⟩ := wf.soa
+  obtain ⟨hsz, hsn, _⟩ := get_some hs
+  have hoex : nameExists z o = true := nameExists_of_mem hsz (hsn ▸ List.suffix_refl _)
+  have hany : ∀ e : LName, (z.any fun r => zoneOf e r.name) = nameExists z e := fun _ => rfl
+  intro enc
+  induction enc with
+  | nil =>
+    intro _ x
+    simp only [nextCloser, intoWildcard, closestEncloser]
+    split <;> rfl
+  | cons l rest ih =>
+    intro ho x
+    by_cases hex : nameExists z (l :: rest) = true
+    · simp [nextCloser, hany, hex, intoWildcard, closestEncloser]
+    · have hex' : nameExists z (l :: rest) = false := by
+        cases h : nameExists z (l :: rest) <;> simp_all
+      have hne : (l :: rest) ≠ o := by
+        intro h; rw [h, hoex] at hex'; cases hex'
+      have ho' : o <:+ rest := by
+        rcases List.suffix_cons_iff.1 ho with h | h
+        · exact absurd h.symm hne
+        · exact h
+      have hcond : (zoneOf o (l :: rest) && (l :: rest) != o &&
+          !(z.any fun r => zoneOf (l :: rest) r.name)) = true := by
+        rw [hany, hex', zoneOf_iff.2 ho]
+        simp [hne]
+      rw [nextCloser, if_pos hcond, ih ho' l]
+      simp [closestEncloser, hex']
+
+theorem lowerName_star_tail {n : LName} (h : lowerName n = n) (m : LName) (hm : m <:+ n) :
+    lowerName (star :: m) = star :: m := by
+  obtain ⟨pre, rfl⟩ := hm
+  unfold lowerName at h ⊢
+  simp only [List.map_append] at h
+  have := List.append_inj_right h (by simp)
+  simp only [List.map_cons, this]
+  rfl
+
+/--
+**What the NSECs of a name error prove** (code as repaired by /repo f7c9c53).  For a name `l ::
+rest` strictly inside a well-formed, lower-cased zone that owns no NSEC (it does not exist, or is
+an empty non-terminal): when `closest_nsec` finds a record `c` for the name and — the wildcard
+`*.<closest encloser>` owning nothing and differing from the name — a record `p` for that
+wildcard, then both are among `nsec_records(name)`, `c` covers the name and `p` covers the
+wildcard at the closest encloser (RFC 4035 §3.1.3.2, §5.4).  With `negative_carries_nsec_records`:
+a negative answer carries exactly these records and the SOA.  That `closest_nsec` *finds* the two
+records depends on `nsec_zone` having built a complete chain — validated by the oracle on every
+signed case, not proved.
+-/
+theorem nxdomain_proof_partial {z : Zone} {o : LName} {l : Bytes} {rest : LName}
+    (hwf : Dev.zoneWF z o = true) (hin : o <:+ rest)
+    (hlow : lowerName (l :: rest) = l :: rest) (hzlow : ∀ x ∈ z, lowerName x.name = x.name)
+    (hnone : getRR z (l :: rest) T_NSEC = none)
+    (hwne : star :: closestEncloser z (l :: rest) ≠ l :: rest)
+    (hwfree : (z.any fun r => r.name == star :: closestEncloser z (l :: rest)) = false)
+    {c p : RRset} (hc : closestNsec z (l :: rest) = some c)
+    (hp : closestNsec z (star :: closestEncloser z (l :: rest)) = some p) :
+    c ∈ nsecRecords z o (l :: rest) ∧ p ∈ nsecRecords z o (l :: rest) ∧
+    covers c (l :: rest) = true ∧ covers p (star :: closestEncloser z (l :: rest)) = true := by
+  have wf := wf_of_zoneWF hwf
+  have hw := nextCloser_eq_closestEncloser wf rest hin l
+  have hcov1 := closestNsec_covers hlow hzlow hnone hc
+  have hwnone : getRR z (star :: closestEncloser z (l :: rest)) T_NSEC = none := by
+    cases hg : getRR z (star :: closestEncloser z (l :: rest)) T_NSEC with
+    | none => rfl
+    | some r =>
+      obtain ⟨hrz, hrn, _⟩ := get_some hg
+      rw [List.any_eq_false] at hwfree
+      exact absurd (by simp [hrn]) (hwfree r hrz)
+  have hwlow : lowerName (star :: closestEncloser z (l :: rest)) = star :: closestEncloser z (l :: rest) :=
+    lowerName_star_tail hlow _ ((closestEncloser_suffix z l rest).trans (List.suffix_cons _ _))
+  have hcov2 := closestNsec_covers hwlow hzlow hwnone hp
+  refine ⟨?_, ?_, hcov1, hcov2⟩ <;>
+  · unfold nsecRecords
+    simp only [hnone, List.tail_cons, hw, hc, hp, hwfree]
+    have : (star :: closestEncloser z (l :: rest) != l :: rest) = true := by simp [hwne]
+    simp only [this, Bool.not_false, Bool.and_self, if_true]
+    split <;> simp_all
+
 end HickoryVerif.C10
